@@ -233,6 +233,15 @@ func (f *FrameHeader) readFrom(br *bufio.Reader) (int64, error) {
 func (f *FrameHeader) WriteTo(w *bufio.Writer) (wb int64, err error) {
 	f.fr.Serialize(f)
 
+	// A header block that does not fit the frame size every peer accepts goes
+	// out as HEADERS followed by CONTINUATION frames (RFC 7540 4.3, 6.10).
+	// They are written here in one go, so nothing can get in between them.
+	// Padding has to stay in the HEADERS frame, so a padded frame is left as
+	// it is.
+	if f.kind == FrameHeaders && len(f.payload) > defaultMaxLen && !f.flags.Has(FlagPadded) {
+		return f.writeHeaderBlock(w)
+	}
+
 	f.length = len(f.payload)
 	f.parseHeader(f.rawHeader[:])
 
@@ -245,6 +254,56 @@ func (f *FrameHeader) WriteTo(w *bufio.Writer) (wb int64, err error) {
 	}
 
 	return wb, err
+}
+
+// writeHeaderBlock writes f.payload as a HEADERS frame and as many
+// CONTINUATION frames as it takes, each within defaultMaxLen.
+func (f *FrameHeader) writeHeaderBlock(w *bufio.Writer) (wb int64, err error) {
+	payload := f.payload
+	flags := f.flags
+	kind := FrameHeaders
+
+	for first := true; first || len(payload) > 0; first = false {
+		chunk := payload
+		if len(chunk) > defaultMaxLen {
+			chunk = chunk[:defaultMaxLen]
+		}
+
+		payload = payload[len(chunk):]
+
+		fl := FrameFlags(0)
+		if first {
+			// END_STREAM and PRIORITY belong to the HEADERS frame
+			fl = flags &^ FlagEndHeaders
+		}
+
+		if len(payload) == 0 {
+			fl |= flags & FlagEndHeaders
+		}
+
+		http2utils.Uint24ToBytes(f.rawHeader[:3], uint32(len(chunk)))
+		f.rawHeader[3] = byte(kind)
+		f.rawHeader[4] = byte(fl)
+		http2utils.Uint32ToBytes(f.rawHeader[5:], f.stream)
+
+		n, werr := w.Write(f.rawHeader[:])
+		wb += int64(n)
+
+		if werr == nil {
+			n, werr = w.Write(chunk)
+			wb += int64(n)
+		}
+
+		if werr != nil {
+			return wb, werr
+		}
+
+		kind = FrameContinuation
+	}
+
+	f.length = len(f.payload)
+
+	return wb, nil
 }
 
 func (f *FrameHeader) Body() Frame {
